@@ -28,7 +28,8 @@ class Sched:
         self.back = _thread.allocate_lock()
         self.back.acquire()
         self.pending = [None] * self.n      # info given at the last yield point of each worker
-        self.done = [False] * self.n
+        self.done = [False] * self.n        # the worker has left its function (normally, by an exception, or aborted)
+        self.completed = [False] * self.n   # ... normally or by an exception of its own (not aborted by the scheduler)
         self.error = [None] * self.n        # exception instance if the worker raised
         self.result = [None] * self.n
         self.aborting = False
@@ -93,6 +94,7 @@ class Sched:
         except BaseException as e:  # noqa
             self.error[i] = e
         self.done[i] = True
+        self.completed[i] = not aborted
         self.pending[i] = None
         if aborted or self.aborting:
             self.back.release()
@@ -125,4 +127,4 @@ class Sched:
         return self
 
     def all_done(self):
-        return all(self.done)
+        return all(self.completed)
